@@ -59,6 +59,13 @@ try:
     from pysnark.runtime import PrivVal, PubVal, LinComb
     a = PrivVal(3); b = PubVal(4); c = a * b; d = (c + 1 - b) * 2; z = (a - a).check_zero(); (LinComb.ZERO + c - c).assert_zero()
     inv = rt.backend.fieldinverse(5)
+    n1 = -a; n2 = n1 * 3 + n1; n3 = -(n2 - b) * 2; n4 = (5 - a) * (-b) - (-c); n5 = -(-n4) + 0
+    # the backend's own linear-combination objects are closed under + - * (by a scalar) and negation, two levels deep
+    _l = [rt.backend.privval(3), rt.backend.pubval(4), rt.backend.one(), rt.backend.zero()]
+    for _round in range(2):
+        _l = [x + y for x in _l[:4] for y in _l[:4]][:4] + [x - y for x in _l[:4] for y in _l[:4]][:4] + [x * 3 for x in _l[:4]] + [-x for x in _l[:4]]
+        if any(isinstance(x, type) or x is None for x in _l):
+            raise TypeError("an operator on the backend's linear combinations returned %%r" %% ([x for x in _l if isinstance(x, type) or x is None][0],))
     report["smoke"] = "ok"
     report["inverse_ok"] = (report["module"] == "pysnark.nobackend") or (5 * inv) %% rt.backend.get_modulus() == 1
 except BaseException as e:
